@@ -93,22 +93,22 @@ META = {
 
 TOKEVAL = {
     "C01": "applicator and scalar keyword truth tables over sub-verdict oracles / abstract operands; type predicates over value classes",
-    "C02": "dispatcher and resolver (resolve, push/pop, join) evaluated on the package's own classes with recording stubs",
+    "C02": "dispatcher (root-schema scope included) and resolver (resolve, push/pop, join, handler selection) evaluated on the package's own classes with recording stubs; pointer table through resolve()",
     "C04": "validate/is_valid/create_from/best_match/module validate evaluated on the package's own classes",
     "C05": "applicator tables (all sub-errors forwarded once); dispatcher evaluated with recording keyword functions",
     "C06": "applicator tables (paths), error classes (absolute paths, json_path), dispatcher stamping and descend evaluated",
     "C07": "URIDict evaluated as an object",
     "C08": "normaliser evaluated on true/false, scalars and all array/object nestings to depth 3",
-    "C10": "dispatcher evaluated: $ref alone, in any key order",
+    "C10": "dispatcher evaluated: $ref alone, in any key order; resolve_fragment on a document with and without annotation/unknown members carrying ids",
     "C11": "type predicates over value classes",
     "C12": "FormatChecker.check/conforms/registration evaluated with recording stub checkers",
     "C13": "-  (regex automata in sa/relang.py instead)",
-    "C14": "fallback only: resolve_fragment against an RFC 6901 reference on 38 fragments when the ordering analysis cannot extract the pipeline",
+    "C14": "resolve_fragment, and resolve('#<fragment>') on a resolver whose own document is the table's, against an RFC 6901 reference on 76 fragments (escapes at every depth, empty keys, arrays of 3 and 12, 5000-digit index tokens and member names)",
     "C15": "RefResolver retrieval, caching and construction evaluated with recording handlers; URIDict",
-    "C16": "create/extend/validates evaluated (copies, forwarding, registration)",
-    "C17": "ErrorTree evaluated on eight of the package's own error objects",
-    "C18": "resolver construction and per-validator resolver evaluated",
-    "C19": "cli.run evaluated on 127 scenarios with an in-memory open and stub validator classes; parse_args with a stub parser",
+    "C16": "create/extend/validates evaluated (copies, forwarding, registration, a parent without $ref and a child with it)",
+    "C17": "ErrorTree evaluated on the package's own error objects: filing, accessors, totals, six arrival orders, errors left untouched",
+    "C18": "resolver construction, per-validator resolver and check_schema (fresh metaschema validator per call) evaluated",
+    "C19": "cli.run evaluated on 133 scenarios with an in-memory open (odd path spellings included) and stub validator classes; parse_args with a stub parser; the module's own argparse parser built inside the interpreter and fed 14 command lines",
     "C20": "validator_for, module validate and registration evaluated with stub classes",
 }
 
